@@ -192,6 +192,8 @@ def foBuiltins : List String :=
 theorem foBuiltins_not_ho : ∀ h ∈ foBuiltins, h ≠ "force" ∧ h ≠ "apply" ∧ h ≠ "map" := by decide
 /-- `substitute` (C16) reads the thunk table: not first-order either -/
 theorem foBuiltins_not_substitute : ∀ h ∈ foBuiltins, h ≠ "substitute" := by decide
+/-- `probe` (C09, channel `tail`) reads the stack depths: not first-order either -/
+theorem foBuiltins_not_probe : ∀ h ∈ foBuiltins, h ≠ "probe" := by decide
 
 /-- a name a `def`/`set`/`let`/`letseq` of the fragment may bind -/
 def okBinder (x : String) : Bool := !foBuiltins.contains x
